@@ -5,6 +5,7 @@
 mod codec;
 mod prm;
 mod diag;
+mod phyrx;
 mod util;
 
 use std::io::{BufRead, Write};
@@ -17,6 +18,7 @@ const DOMAINS: &[(&str, GenFn, RunFn)] = &[
     ("codec", codec::gen, codec::run_case),
     ("prm", prm::gen, prm::run_case),
     ("diag", diag::gen, diag::run_case),
+    ("phyrx", phyrx::gen, phyrx::run_case),
 ];
 
 fn main() {
